@@ -21,8 +21,17 @@ def main():
     except ModuleNotFoundError:
         print('no check for %s' % a.pid)
         sys.exit(3)
+    except Exception:           # a broken check module is a machinery error (exit 3), never exit 1
+        traceback.print_exc()
+        print('INCONCLUSIVE: check module for %s failed to load' % a.pid)
+        sys.exit(3)
     if a.replay:
-        sys.exit(mod.replay(a.replay))
+        try:
+            rc = mod.replay(a.replay)
+        except Exception:
+            traceback.print_exc()
+            rc = 3
+        sys.exit(rc)
     run = engine.Run(a.pid, a.tier, seed)
     try:
         rc = mod.check(run)
